@@ -433,7 +433,19 @@ def F21():
     comp.run(start_time=S, end_time=S + timedelta(days=3))
 
 
-ALL = ["F1", "F2", "F3", "F3b", "F4", "F5", "F6", "F7", "F8", "F9", "F10", "F11", "F13", "F14", "F15", "F16", "F17", "F18", "F20", "F21"]
+def F22():
+    """AvgOverTime >> DelayFixed below a late-starting source: the clamped request time repeats, the pull fails with 'zero-length' (C01)"""
+    from datetime import timedelta
+
+    src = fm.components.CallbackGenerator({"Out": (lambda t: float((t - S).days), fm.Info(time=None, grid=fm.NoGrid(), units="m"))}, S + timedelta(days=5), timedelta(days=5))
+    got = []
+    cons = fm.components.CallbackComponent({"In": fm.Info(time=None, grid=fm.NoGrid(), units=None)}, {}, lambda ins, t: got.append((t, ins)) or {}, S, timedelta(hours=36), initial_pull=False)
+    comp = _quiet_comp([src, cons]) if "_quiet_comp" in globals() else fm.Composition([src, cons], print_log=False, log_level=logging.CRITICAL)
+    src.outputs["Out"] >> AvgOverTime(step=0.5) >> DelayFixed(timedelta(days=13)) >> cons.inputs["In"]
+    comp.run(start_time=S, end_time=S + timedelta(days=24))
+
+
+ALL = ["F1", "F2", "F3", "F3b", "F4", "F5", "F6", "F7", "F8", "F9", "F10", "F11", "F13", "F14", "F15", "F16", "F17", "F18", "F20", "F21", "F22"]
 
 if __name__ == "__main__":
     names = sys.argv[1:] or ALL
